@@ -41,6 +41,32 @@ MUTANTS = [
     m('C01', 'no_fill_in_edges', (JT, "            edges |= tmp\n", "            pass\n")),
     m('C01', 'separator_from_first_two', (JT, "return { (i,j) : tuple(set(i)&set(j)) for i,j in self.mp_order() }",
                                           "return { (i,j) : tuple(set(i)&set(j))[:2] for i,j in self.mp_order() }")),
+    # ---- C02 ------------------------------------------------------------
+    m('C02', 'project_cached_in_clique_order', (GM, "                    return self.marginals[cl].project(attrs)", "                    return self.marginals[cl].project(self.domain.canonical(attrs))")),
+    m('C02', 'krondot_forgets_total', (GM, "return result.datavector(flatten=False) * self.total / np.exp(logZ)", "return result.datavector(flatten=False) / np.exp(logZ)")),
+    m('C02', 'many_marginals_sum_over_wrong_set', (GM, "                S = set(Cl) - set(Ci) - set(Cj)", "                S = set(Cl) - set(Ci)")),
+    m('C02', 'many_marginals_answers_uncanonical', (GM, "                    answers[proj] = results[attr].project(proj)", "                    answers[proj] = results[attr].project(self.domain.canonical(proj))")),
+    m('C02', 've_logspace_forgets_total', (GM, "    return (ans - ans.logsumexp() + np.log(total)).exp()", "    return (ans - ans.logsumexp()).exp()")),
+    # ---- C14 ------------------------------------------------------------
+    m('C14', 'revert_F0_logaddexp', (FA, "        factor2 = other.expand(newdom)\n        return Factor(newdom, np.logaddexp", "        factor2 = self.expand(newdom)\n        return Factor(newdom, np.logaddexp")),
+    m('C14', 'expand_moveaxis_swapped', (FA, "        ax = domain.axes(self.domain.attrs)\n        values = np.moveaxis(values, range(len(ax)), ax)", "        ax = domain.axes(self.domain.attrs)\n        values = np.moveaxis(values, ax, range(len(ax)))")),
+    m('C14', 'transpose_moveaxis_swapped', (FA, "        ax = newdom.axes(self.domain.attrs)\n        values = np.moveaxis(self.values, range(len(ax)), ax)", "        ax = newdom.axes(self.domain.attrs)\n        values = np.moveaxis(self.values, ax, range(len(ax)))")),
+    m('C14', 'project_no_transpose', (FA, "        return ans.transpose(attrs)", "        return ans")),
+    m('C14', 'combine_proper_subset_only', (CV, "                if set(cl) <= set(cl2):", "                if set(cl) < set(cl2):")),
+    m('C14', 'combine_no_break', (CV, "                    self[cl2] += other[cl]\n                    break", "                    self[cl2] += other[cl]")),
+    m('C14', 'div_zero_cells_not_cleared', (FA, "        vals[tmp.values<=0] = 0.0\n", "")),
+    m('C14', 'imul_adds', (FA, "        factor2 = other.expand(self.domain)\n        self.values *= factor2.values", "        factor2 = other.expand(self.domain)\n        self.values += factor2.values")),
+    m('C14', 'condition_positional', (FA, "        slices = [evidence[a] if a in evidence else slice(None) for a in self.domain]", "        slices = list(evidence.values()) + [slice(None)]*(len(self.domain)-len(evidence))")),
+    m('C14', 'copy_out_aliases', (FA, "            return Factor(self.domain, self.values.copy())", "            return Factor(self.domain, self.values)")),
+    m('C14', 'cv_sub_wrong_sign', (CV, "        return self + -1*other", "        return -1*self + other")),
+    # ---- C15 ------------------------------------------------------------
+    m('C15', 'project_drops_weights', (DS, "        return Dataset(data, domain, self.weights)", "        return Dataset(data, domain)")),
+    m('C15', 'df_not_reordered', (DS, "        self.df = df.loc[:,domain.attrs]", "        self.df = df[[c for c in df.columns if c in domain.attrs]]")),
+    m('C15', 'canonical_keeps_given_order', (DO, "        return tuple(a for a in self.attrs if a in attrs)", "        return tuple(a for a in attrs if a in self.attrs)")),
+    m('C15', 'merge_puts_new_first', (DO, "        return Domain(self.attrs + extra.attrs, self.shape + extra.shape)", "        return Domain(extra.attrs + self.attrs, extra.shape + self.shape)")),
+    m('C15', 'sort_size_descending', (DO, "            attrs = sorted(self.attrs, key=self.size)", "            attrs = sorted(self.attrs, key=self.size, reverse=True)")),
+    m('C15', 'marginalize_sorted', (DO, "        proj = [a for a in self.attrs if not a in attrs]", "        proj = sorted(a for a in self.attrs if not a in attrs)")),
+    m('C15', 'datavector_ignores_weights', (DS, "        ans = np.histogramdd(self.df.values, bins, weights=self.weights)[0]", "        ans = np.histogramdd(self.df.values, bins)[0]")),
 ]
 
 
